@@ -442,6 +442,7 @@ func main() {
 		{seri, "ArrayRules.LexicalOrderWithoutDupsValidator"}, {seri, "ArrayRules.AtMostOneOfEachTypeValidator"}, {seri, "ArrayRules.ElementValidationFunc"},
 		{srx, "API.JSONDecode"}, {srx, "API.MapDecode"}, {srx, "API.mapDecode"}, {srx, "mapDecodeBytes"}, {srx, "API.mapDecodeFloat"}, {srx, "API.mapDecodeNum"},
 		{omap, "SerializableOrderedMap.Decode"},
+		{seri, "CheckType"}, {seri, "CheckTypeByte"}, {seri, "numSize"},
 	}
 	for _, bd := range bodies {
 		fd := findFunc(bd.files, bd.name)
